@@ -146,7 +146,7 @@ def _flag_collinear(rp, c):
 def _flag_zero_unit(rp, c):
     try:
         if bool(np.any(np.all(np.asarray(c.W) == 0.0, axis=1))):
-            rp.extra_ctx["zero_unit"] = True      # a noise unit with w = 0 and w0 = 0 (known finding KF-5)
+            rp.extra_ctx["zero_unit"] = True      # a noise unit with w = 0 and w0 = 0 (outside C17: non-zero offsets)
     except Exception:
         pass
 
